@@ -1469,7 +1469,10 @@ int __wrap(pthread_spin_lock)(pthread_spinlock_t *lock) {
   int ret;
   (void)_;
   if (myth_should_wrap_pthread()) {
-    ret = myth_spin_lock_body((myth_spinlock_t *)lock);
+    /* myth_spin_lock_body returns the number of failed attempts
+       (diagnostic); POSIX wants 0 once the lock is held */
+    (void)myth_spin_lock_body((myth_spinlock_t *)lock);
+    ret = 0;
   } else {
     ret = real_pthread_spin_lock(lock);
   }
